@@ -228,7 +228,7 @@ Proof. exact mnemonic_roundtrip. Qed.
 Print Assumptions C06_mnemonic_roundtrip.
 
 (* What is accepted are words of the list, read as base-n digits, first word least significant. *)
-Theorem C06_mnemonic_decode_sound : forall words : list bytes, forall s i,
+Theorem C06_mnemonic_decode_sound : forall words : list bytes, (2 <= length words)%nat -> forall s i,
   mnemonic_decode words s = Ok i ->
   exists ds, split_ws s = map (fun d => nth (N.to_nat d) words []) ds /\
              Forall (fun d => d < nwords words) ds /\ i = val_lsb (nwords words) ds.
